@@ -134,7 +134,7 @@ func C06(p *load.Prog, r *report.Report) {
 		r.Undecided("C06.anchor", "SetUInt64", "", "method not found")
 	}
 	// the internal inversion wrapper also with its own aliasing (out is the source of the by-value argument)
-	if fn := p.Scalar.Func("Invert"); fn != nil {
+	if fn := anchorFunc(p, p.Scalar, "Invert"); fn != nil {
 		alpha := absint.FieldSym(FN, "α")
 		limbT := fn.Params[0].Type().(*types.Pointer).Elem()
 		runEach(p, r, "C06.chain", "scalar.Invert", fn, func(it *absint.Interp) []absint.Value {
